@@ -29,13 +29,25 @@ pub fn run_case(c: &Value) -> Value {
     let a: &UserId = <&UserId>::try_from("@a:s1").unwrap();
     let b: &UserId = <&UserId>::try_from("@b:s1").unwrap();
     let plc = json!({"pl": c["pl"]});
-    let content_json = content_of("m.room.power_levels", &plc, v);
+    let mut content_json = content_of("m.room.power_levels", &plc, v);
+    let red = c.get("red").and_then(|r| r.as_bool()).unwrap_or(false);
+    if red {
+        // the event has been redacted: both sides read what ruma's redaction leaves of the content
+        let rv = ruma_common::RoomVersionId::try_from(v.to_string().as_str()).unwrap().rules().unwrap();
+        let mut obj: ruma_common::CanonicalJsonObject = serde_json::from_value(content_json.clone()).unwrap();
+        ruma_common::canonical_json::redact_content_in_place(&mut obj, &rv.redaction, "m.room.power_levels");
+        content_json = serde_json::to_value(&obj).unwrap();
+    }
     let r = guard(|| {
         let mut o = json!({});
         // ---- helpers
-        match serde_json::from_value::<RoomPowerLevelsEventContent>(content_json.clone()) {
-            Ok(content) => {
-                let pl = RoomPowerLevels::from(content);
+        let helper = if red {
+            serde_json::from_value::<ruma_events::room::power_levels::RedactedRoomPowerLevelsEventContent>(content_json.clone()).map(RoomPowerLevels::from)
+        } else {
+            serde_json::from_value::<RoomPowerLevelsEventContent>(content_json.clone()).map(RoomPowerLevels::from)
+        };
+        match helper {
+            Ok(pl) => {
                 o["h"] = json!({
                     "ban": pl.user_can_ban_user(a, b), "kick": pl.user_can_kick_user(a, b),
                     "unban": pl.user_can_unban_user(a, b), "invite": pl.user_can_invite(a),
@@ -86,7 +98,10 @@ pub fn run_case(c: &Value) -> Value {
         let ids = id_map(&refs);
         let mut state: HashMap<(String, String), Pdu> = HashMap::new();
         for x in &st {
-            let p = pdu_of(x, v, &ids);
+            let mut p = pdu_of(x, v, &ids);
+            if red && x["type"] == "m.room.power_levels" {
+                p.content = serde_json::value::to_raw_value(&content_json).unwrap();
+            }
             state.insert((p.ty.to_string(), p.state_key.clone().unwrap_or_default()), p);
         }
         for (name, ev) in &cands {
